@@ -38,6 +38,7 @@ fn type_node(n: &AstNode) -> J {
       };
       json!({"t": "fn", "ps": params, "r": type_node(r)})
     }
+    AstNode::QualifiedName(segs) => json!({"t": "named", "name": segs.iter().map(name_of).collect::<Vec<_>>().join(".")}),
     other => json!({"t": format!("?{:?}", other)}),
   }
 }
